@@ -22,6 +22,8 @@ type c19X struct {
 	ErrAt      int // index in Lines of the fourth counted error, -1 if fewer
 	Judged     bool
 	WriteFault bool // error threshold: the reply writes fail from some point on (the peer does not read)
+	TLSAt      int  // error threshold: STARTTLS (and the handshake) comes before line TLSAt, -1 = never
+	ErrsPreTLS int  // malformed lines before it
 }
 
 var c19Pos = []string{"before-helo", "greeted", "after-mail", "after-bdat-chunk", "after-transaction", "inside-auth-exchange", "after-chunk-refused-by-backend"}
@@ -103,7 +105,7 @@ func genC19(t *Tape, tier string) *Scenario {
 	sc.Srv = drawCfg(t, cfgOpts{})
 	sc.Srv.MaxRcpt = 0
 	sc.Srv.LMTP = false
-	x := &c19X{ErrAt: -1}
+	x := &c19X{ErrAt: -1, TLSAt: -1}
 	sc.X = x
 	x.Kind = t.Named("c19kind", 6)
 	var cp ConnBackendPlan
@@ -277,7 +279,18 @@ func genC19(t *Tape, tier string) *Scenario {
 		invalid := []string{"XYZZY", "FROB nicate", "AB", "NOOPX", "", "MAILX FROM:<a@b>", "QUI", "HELLO there", "QUITE"}
 		n := 1 + t.Intn(9)
 		errs := 0
+		if t.Chance(1, 4) {
+			// the errors are spread over both sides of a STARTTLS: the count belongs to the
+			// connection, not to the epoch
+			sc.Srv.TLS = tlsStart
+			x.TLSAt = t.Intn(n + 1)
+			lock = true
+		}
 		for i := 0; i < n; i++ {
+			if i == x.TLSAt {
+				x.ErrsPreTLS = errs
+				steps = append(steps, Step{Kind: kStartTLS, Data: []byte("STARTTLS\r\n"), Wait: 1})
+			}
 			var l string
 			if t.Chance(3, 5) {
 				l = invalid[t.Intn(len(invalid))]
@@ -291,12 +304,16 @@ func genC19(t *Tape, tier string) *Scenario {
 			x.Lines = append(x.Lines, l)
 			steps = append(steps, Step{Kind: kGarbage, Data: []byte(l + "\r\n"), Wait: w(), Glue: !lock && t.Bool()})
 		}
+		if x.TLSAt == n {
+			x.ErrsPreTLS = errs
+			steps = append(steps, Step{Kind: kStartTLS, Data: []byte("STARTTLS\r\n"), Wait: 1})
+		}
 		steps = append(steps, Step{Kind: kQuit, Data: []byte("QUIT\r\n"), Wait: w()})
 		x.Judged = true
 	}
 	cs := ConnScript{Lat: drawLat(t), SrvCaps: drawCaps(t), Steps: steps}
 	cs.defaults()
-	if x.Kind == 4 && t.Chance(1, 4) {
+	if x.Kind == 4 && x.TLSAt < 0 && t.Chance(1, 4) {
 		// the flood comes from a peer that does not take the replies: from some reply on
 		// the writes fail, or one blocks until WriteTimeout and the rest fail
 		x.WriteFault = true
@@ -325,6 +342,9 @@ func checkC19(sc *Scenario, h *History) []Violation {
 	wit := fmt.Sprintf("kind=%s limit=%d len=%d form=%d pos=%s", c19Kinds[x.Kind], x.Limit, x.Len, x.Form, c19Pos[x.Pos])
 	if x.Kind == 2 || x.Kind == 4 || x.Kind == 5 {
 		wit += fmt.Sprintf(" lines=%q", x.Lines)
+		if x.TLSAt >= 0 {
+			wit += fmt.Sprintf(" starttls-before-line=%d", x.TLSAt)
+		}
 	}
 	// no recovered panic, no deadlock, nobody left behind
 	for _, l := range h.Logs {
@@ -343,7 +363,11 @@ func checkC19(sc *Scenario, h *History) []Violation {
 	if h.Leaked > 0 {
 		out = append(out, Violation{Rule: "C19.goroutine-leak", Detail: clip(h.LeakDump, 2000), Witness: wit})
 	}
-	replies, _ := parseReplies(ch.S2C.Buf)
+	wire := ch.S2C.Buf
+	if x.TLSAt >= 0 {
+		wire = ch.Recv // what the lock-step client read, through TLS from the handshake on
+	}
+	replies, _ := parseReplies(wire)
 	var codes []string
 	for _, r := range replies {
 		codes = append(codes, fmt.Sprint(r.Code))
@@ -432,6 +456,9 @@ func checkC19(sc *Scenario, h *History) []Violation {
 			}
 		} else if x.ErrAt >= 0 {
 			want := x.Pre + x.ErrAt + 2 // one reply per line up to the fourth error, plus the closing notice
+			if x.TLSAt >= 0 && x.TLSAt <= x.ErrAt {
+				want++ // the 220 to STARTTLS
+			}
 			if len(replies) != want || !closedByServer {
 				out = append(out, Violation{Rule: "C19.error-threshold", Detail: fmt.Sprintf("fourth malformed command is line %d: expected %d replies then a close (closed=%v), got %d: %s", x.ErrAt, want, closedByServer, len(replies), strings.Join(codes, " ")), Witness: wit})
 			} else if replies[want-1].Code != 500 {
@@ -439,6 +466,9 @@ func checkC19(sc *Scenario, h *History) []Violation {
 			}
 		} else {
 			want := x.Pre + len(x.Lines) + 1
+			if x.TLSAt >= 0 {
+				want++
+			}
 			if len(replies) != want || replies[want-1].Code != 221 {
 				out = append(out, Violation{Rule: "C19.error-threshold", Detail: fmt.Sprintf("fewer than four malformed commands: expected %d replies ending in 221, got %d: %s", want, len(replies), strings.Join(codes, " ")), Witness: wit})
 			}
@@ -493,6 +523,9 @@ func classifyC19(sc *Scenario, h *History, st *Stats) string {
 			if x.WriteFault {
 				st.Faults["error_flood_while_reply_writes_fail"]++
 			}
+			if x.TLSAt >= 0 && x.ErrsPreTLS >= 1 && x.ErrsPreTLS <= 3 && ch.HandshakeDone {
+				st.Probes["errors_on_both_sides_of_STARTTLS"]++
+			}
 		}
 	}
 	if ch.SrvCloseSeq >= 0 {
@@ -513,7 +546,7 @@ func segKey(sc *Scenario) string {
 func init() {
 	register(&Property{
 		ID: "C19", Level: "exploration",
-		Rule:     "raw driver sends (0) a probe line of length limit-2..limit+3, limit+50, 2*limit (CRLF included; NOOP padded or MAIL padded with spaces) for limits 64/200/2000 at seven conversation positions (after a BDAT chunk - lock-step or in the chunk's own segment -, after a chunk the backend refused, inside an AUTH exchange where the line is the base64 response to a 334, ...), whole or cut so that the limit is crossed inside one segment or across segments; (1) an endless LF-free stream of 70000 octets (letters, or letters with CR, NUL, SP or HT at intervals shorter than the limit) at four positions including after a BDAT chunk; (2) every string of length <= 4 over {NUL,CR,LF,SP,A,:,<} as a command line, repeated 1-4 times; (3) seeded binary; (4) mixes of valid and malformed commands around the fourth error, checked against a reference error counter; (5) MAIL and RCPT arguments built from fragments - paths (quoted, source-routed, literal, unterminated, doubled brackets, 8-bit) and parameters of every extension (SIZE, BODY, SMTPUTF8, REQUIRETLS, RET, ENVID, AUTH, NOTIFY, ORCPT rfc822/utf-8 with escapes cut short, RRVS), each alone (systematic) and in drawn combinations, with all extensions enabled: no panic, five replies, the connection stays usable. Every case is non-trivial by construction; distinct by (kind, limit, length, form, position, lines, segmentation). Length limit+1 is generated but not judged. The error flood also comes from a peer that does not take the replies (reply writes fail, or block until WriteTimeout), with a sentinel command behind it.",
+		Rule:     "raw driver sends (0) a probe line of length limit-2..limit+3, limit+50, 2*limit (CRLF included; NOOP padded or MAIL padded with spaces) for limits 64/200/2000 at seven conversation positions (after a BDAT chunk - lock-step or in the chunk's own segment -, after a chunk the backend refused, inside an AUTH exchange where the line is the base64 response to a 334, ...), whole or cut so that the limit is crossed inside one segment or across segments; (1) an endless LF-free stream of 70000 octets (letters, or letters with CR, NUL, SP or HT at intervals shorter than the limit) at four positions including after a BDAT chunk; (2) every string of length <= 4 over {NUL,CR,LF,SP,A,:,<} as a command line, repeated 1-4 times; (3) seeded binary; (4) mixes of valid and malformed commands around the fourth error, checked against a reference error counter - in a quarter of them with a STARTTLS and its handshake somewhere between the lines, which does not restart the count; (5) MAIL and RCPT arguments built from fragments - paths (quoted, source-routed, literal, unterminated, doubled brackets, 8-bit) and parameters of every extension (SIZE, BODY, SMTPUTF8, REQUIRETLS, RET, ENVID, AUTH, NOTIFY, ORCPT rfc822/utf-8 with escapes cut short, RRVS), each alone (systematic) and in drawn combinations, with all extensions enabled: no panic, five replies, the connection stays usable. Every case is non-trivial by construction; distinct by (kind, limit, length, form, position, lines, segmentation). Length limit+1 is generated but not judged. The error flood also comes from a peer that does not take the replies (reply writes fail, or block until WriteTimeout), with a sentinel command behind it.",
 		Gen:      genC19,
 		Check:    checkC19,
 		Classify: classifyC19,
@@ -554,7 +587,7 @@ func init() {
 		Real:        []string{"smtp.Server.Serve/handleConn", "smtp.Conn command loop, protocolError, panic recovery", "lineLimitReader", "parseCmd and argument parsers", "net/textproto", "bufio"},
 		Stub:        []string{"net.Listener (SimListener)", "net.Conn (SimConn; counts the octets the server pulls)", "Backend/Session (SimBackend)", "clock (synctest)", "SMTP client (raw driver)", "Server.ErrorLog (recording logger)"},
 		Assumptions: []string{"only unknown verbs and lines not of the shape VERB [SP args] are used as 'unrecognised or malformed'; argument-level syntax errors are counted neither way", "an unrecovered panic kills the worker process and is reported by verifctl as a process-crash violation"},
-		Required:    []string{"endless_line_after_bdat_chunk", "probe_after_chunk_refused_by_backend", "probe_line_in_the_same_segment_as_a_chunk", "limit_crossed_across_segments", "limit_crossed_inside_one_segment", "error_threshold_reached", "line_len_limit+2", "line_len_limit+0", "error_flood_while_reply_writes_fail", "endless_line_with_CR_at_intervals", "mail_rcpt_arguments_from_fragments", "fragment_arguments_accepted_by_parser"},
+		Required:    []string{"endless_line_after_bdat_chunk", "probe_after_chunk_refused_by_backend", "probe_line_in_the_same_segment_as_a_chunk", "limit_crossed_across_segments", "limit_crossed_inside_one_segment", "error_threshold_reached", "line_len_limit+2", "line_len_limit+0", "error_flood_while_reply_writes_fail", "endless_line_with_CR_at_intervals", "mail_rcpt_arguments_from_fragments", "fragment_arguments_accepted_by_parser", "errors_on_both_sides_of_STARTTLS"},
 		QuickRuns:   120000, ThoroughRuns: 3000000,
 	})
 }
